@@ -236,6 +236,41 @@ def validate_before_trust(ctx, rule='C12.validate-before-trust'):
     return res
 
 
+def selection_always_validates(ctx, rule='C12.selection-validates'):
+    """the functions that hold the validity tests of header selection are never called in a mode that switches the tests off: with the constant arguments of every call site
+    propagated into the callee (`read_meta(false)`), each call of the checksum test stays reachable.  A "the headers were checked at open" fast path trusts a header that was
+    found damaged at open and is still in the file"""
+    from reach import pruned_blocks, const_args
+    res = []
+    F = ctx.facts
+    try:
+        vr, ovr = ctx.need('valid-role', 'old-valid-role')
+    except AnchorError as e:
+        return [unresolved(rule, str(e))]
+    holders = [f for f in F.fns if f.kind != 'Closure' and (calls_to_fn(F, f, vr) or calls_to_fn(F, f, ovr)) and 'meta::Meta' in f.locals[0]['ty']]
+    f0 = floor(rule, 'functions holding the validity tests of header selection', len(holders), 1)
+    if f0:
+        return [f0]
+    n = 0
+    for h in holders:
+        tests = {bb for bb, t, c in calls_to_fn(F, h, vr) + calls_to_fn(F, h, ovr)}
+        for caller in F.fns:
+            for bb, t, c in calls_to_fn(F, caller, h):
+                n += 1
+                consts = const_args(h, t, caller)
+                if not consts:
+                    continue
+                live = pruned_blocks(h, consts, F)
+                gone = sorted(tests - set(live))
+                if gone:
+                    res.append(bad(rule, '%s | calls %s with the validity tests switched off' % (caller.qual, h.qual),
+                                   '%s calls %s at %s with constant arguments %s under which the checksum test at %s is unreachable: the header it returns has not been validated'
+                                   % (caller.qual, h.qual, caller.loc(bb), {h.local_name(k): v for k, v in consts.items()}, h.loc(gone[0])), where=caller.loc(bb)))
+    if not any(not r.ok for r in res):
+        res.append(ok(rule, 'no call of %s switches the validity tests off (%d call sites)' % (', '.join(h.qual for h in holders), n), sites=max(n, 1)))
+    return res
+
+
 def select_total(ctx, rule='C12.select-total'):
     """a header is returned only where its own validity test succeeded; each validated header is returned on some path;
     when both are valid the transaction ids are compared"""
@@ -483,6 +518,7 @@ def run(ctx, tier):
     results += checksum_total(ctx)
     results += validate_before_trust(ctx)
     results += select_total(ctx)
+    results += selection_always_validates(ctx)
     results += seal_last(ctx)
     results += kind_exact(ctx)
     results += header_extent(ctx)
@@ -496,6 +532,8 @@ def run(ctx, tier):
     results += c02.pending_key(ctx, rule='C12.fallback-kept.key')
     import c06
     results += c06.open_existing(ctx, rule='C12.open-existing')
+    # a refusal added to open in front of header selection looks at one header before the other has had its chance
+    results += c15.open_refusals(ctx, rule='C12.open-refusals')
     import c03
     results += c03.release_sites(ctx, rule='C12.release-site')
     return dict(
@@ -505,6 +543,6 @@ def run(ctx, tier):
             'the current and the legacy format, and validity compares stored and recomputed hash; (validate-before-trust) in the header-selection trace no '
             'panic/assert depends on header bytes that have not passed the checksum test of the same header; (select-total) a header is returned only behind '
             'its own validity test, each of the two headers can be returned, and two valid headers are compared by transaction id; (seal-last) header images '
-            'are sealed after all fields are stored; (alternate) commits alternate between the two header slots, so the other header is always the previous commit; (fallback-kept) pages of the previous snapshot are filed as pending, never as free; (open-existing) open writes only into files it has just created, so an intact header is never overwritten on open; (header-extent) the header write is exactly one page long, so it cannot reach the other header. (O0) every successful return of commit passes a header write; (cow.write-set) data pages go only to pages the transaction allocated. NOT decided: '
+            'are sealed after all fields are stored; (alternate) commits alternate between the two header slots, so the other header is always the previous commit; (fallback-kept) pages of the previous snapshot are filed as pending, never as free; (open-existing) open writes only into files it has just created, so an intact header is never overwritten on open; (header-extent) the header write is exactly one page long, so it cannot reach the other header. (O0) every successful return of commit passes a header write; (cow.write-set) data pages go only to pages the transaction allocated. (selection-validates) no call site switches the validity tests off through a constant argument; (open-refusals) refusal sites on the open path do not grow. NOT decided: '
             'collision resistance of the checksum, behaviour of the rest of open on the fallback snapshot.'),
         assumptions=['damage is confined to one header page', 'FNV-1a / SHA3 detect the damage (no collision)'])
